@@ -291,6 +291,8 @@ def classify(p):
     lock-shared-vs-exclusive: lock_all and exclusive-lock epochs coexist in one phase (Win::lock / Win::unlock);
     exclusive-epochs-read-write: exclusive epochs of two origins where one reads a cell the other writes (Win::unlock);
     concurrent-cas: two origins compare-and-swap one cell without an exclusive lock (Win::compare_and_swap);
+    cas-then-access-same-origin: a compare-and-swap followed in the same segment by another access of the same origin to
+    the same cell (Win::compare_and_swap returns with its Put in flight);
     replace-fetch-vs-acc: MPI_REPLACE on one cell by a fetching access of one origin and a plain accumulate of another
     (Win::get_accumulate vs Win::accumulate); else the kinds of epochs used."""
     acc, epochs = accesses_by_phase(p)
@@ -320,6 +322,19 @@ def classify(p):
             repl = True
     if cas:
         return "concurrent-cas"
+    # one origin: a compare-and-swap followed, in the same segment (no flush / unlock in between), by another access of that
+    # origin to the same cell (accumulate-class accesses of one origin are ordered: the second must see the swap)
+    for o, r in enumerate(p["ranks"]):
+        seg = []
+        for s in r:
+            if s["op"] in ("put", "get", "acc", "gacc", "fop", "cas"):
+                cells_s = {(s["t"], s["d"] + i) for i in range(s["n"])}
+                if any(c in cells_s for prev in seg for c in prev):
+                    return "cas-then-access-same-origin"
+                if s["op"] == "cas":
+                    seg.append(cells_s)
+            else:
+                seg = []
     if repl:
         return "replace-fetch-vs-acc"
     return "+".join(sorted({k for _, k in epochs})) or "fence"
